@@ -98,9 +98,13 @@ def build_one(tc, cache_dir, work, prog, be, bflags, gc, gflags, need_art):
         else:
             res["art_err"] = err[-600:]
     shutil.rmtree(d, ignore_errors=True)
-    tmp = cpath + ".tmp%d" % os.getpid()
-    json.dump(res, open(tmp, "w"))
-    os.replace(tmp, cpath)
+    try:                                  # the cache is a convenience: never let it decide the outcome of a run
+        os.makedirs(cache_dir, exist_ok=True)
+        tmp = cpath + ".tmp%d_%d" % (os.getpid(), abs(hash(key)) % 100000)
+        json.dump(res, open(tmp, "w"))
+        os.replace(tmp, cpath)
+    except OSError:
+        pass
     return res
 
 
